@@ -39,7 +39,7 @@ CHECKS = {
               "constituent FS: root exists and is a directory; for every path of the depth-4 closure (121 paths) that Stat or Open accepts the parent is a directory that lists it; every "
               "listed entry can be Stat'ed and opened with agreeing kinds; no duplicates; every call returned within the watchdog; (plain store) every stored key is reachable by listings. "
               "Handle steps (hopen/hwrite/htrunc/hchmod/hclose on 2 slots) keep handles open across later namespace operations, a third of the steps then aim at the open handle's path or its directory; the stale legs build histories around one handle that outlives its path. Directory handles are opened as well and read in pages (hreaddir, page sizes 1, 2, 3, all) while their children change; the dirpage legs script exactly that: populate a directory with 2..4 children, open it, interleave ReadDir(n) with removals, renames and additions of children. "
-              "non-trivial = history with a successful rename/remove of a directory or an operation whose path runs through a regular file; every stale / dirpage case"),
+              "On kvplain a quarter of the steps (half of mkdirall / rename / removeall, which also get deep MkdirAll targets) run with the store failing its k-th call (k in 1..8 / 1..14) during the step. non-trivial = history with a successful rename/remove of a directory or an operation whose path runs through a regular file; every stale / dirpage case"),
         assumptions=["names {a,b,c}, depth <= 4", "for Sub views removing/renaming the view's root is not generated (it legitimately removes the base directory of the parent)",
                      "termination observed as: returned within a 10 s watchdog, confirmed by re-running the history alone in a fresh process"],
         legs=[
@@ -166,7 +166,7 @@ CHECKS = {
               "transactions per sequence, each finished at most once by the caller), on the in-memory store's real transactions (verif hook) and on the serial fallback over a plain map store. Map model: Commit returns one result per call, "
               "in call order, ids equal to the ids the calls returned and never reused; each Get returns the value of earlier Sets of this and of earlier transactions (ErrNotExist if none); a handler error becomes that op's Err; calls after an "
               "abort change nothing; afterwards a fresh transaction opens and commits within the watchdog and the store read back directly equals the model. isolation leg: 1-3 writer and 1-3 reader transactions parked inside handlers by the harness: "
-              "never two inside at once, no torn read, no torn final state. refused leg: T1 open on the real in-memory store (wrapped so that the next 1, 2, 3 or all Transaction() calls fail) has read k1; a second caller asks keyvalue.TransactionOrSerial or runs an FS write / remove / rename of k2 and uses whatever it is handed; T1 then reads k1 and k2 again: all three reads are the initial value. non-trivial = >=3 calls with >=1 Set; every isolation case"),
+              "never two inside at once, no torn read, no torn final state. refused leg: T1 open on the real in-memory store (wrapped so that the next 1, 2, 3 or all Transaction() calls fail) has read k1; a second caller asks keyvalue.TransactionOrSerial or runs an FS write / remove / rename of k2 and uses whatever it is handed; T1 then reads k1 and k2 again: all three reads are the initial value. Handlers of kind 'nested' call Get on the transaction they are handed: that call is one more call with its own id and result, in call order. non-trivial = >=3 calls with >=1 Set; every isolation case"),
         assumptions=["what Commit returns for an aborted transaction is not pinned (only that the store is unchanged by later calls and stays usable)", "a second explicit Commit/Abort by the caller is API misuse and not generated"],
         legs=[
             dict(name="mem", run="^TestMemTxn$", quick=2000, thorough=20000, shards=4),
@@ -205,7 +205,7 @@ CHECKS = {
               "source Read calls and the cache-store calls (Open, OpenFile, Mkdir, Write, Close of the written file, Stat/ReadDir of the MkdirAll fallback); then one run per call index with that call failing: the open must not return success with bytes that differ from the source, "
               "a failed create/write/close/mkdir of the fill must make Open fail, and every later fault-free open returns either an error or the complete bytes. concurrent leg: 2..4 goroutines open the same uncached file; every Read of the source is gated by the harness, "
               "which pauses the copy at every chunk boundary, lets the others run (settle 0..400us), and checks that never two source reads are in flight, that all opens return, and that every successful open reads the complete bytes. "
-              "non-trivial = >=2 faults fired in a case; every concurrent case"),
+              "twofiles leg: two goroutines open two different uncached files; every source Read parks before it reads and after it has filled the buffer, released one at a time in a drawn order; each open, each later open and the store's copies hold the right file's bytes. non-trivial = >=2 faults fired in a case; every concurrent case"),
         assumptions=["waiters blocked on the per-path sync.Mutex cannot be observed directly: the harness sleeps a drawn settle time before releasing the paused copy (affects which schedule is explored, never the verdict)"],
         legs=[
             dict(name="faults", run="^TestFaults$", quick=120, thorough=1200, shards=4, quick_shards=4),
@@ -234,7 +234,7 @@ CHECKS = {
               "optionally one entry's destination write held so that the file is visibly incomplete, and 1..8 Open calls launched while the stream is parked, right after the fault, or after Done (entries not yet reached / being written / written, directories, missing names). "
               "cuts leg: per generated archive EVERY cut block x {truncate, error, cancel}. destfaults leg: per generated archive a failure at EVERY destination call index. hooked leg: tar's own goroutines parked at the verifPoint markers (before the unpack error is stored, before a file is announced) "
               "while every entry is opened. stress leg: the same cases free-running, 60 repetitions each. pubsub / bufferpool legs: model-based sequences on the exported components (Wait returns iff emitted or cancelled; outstanding <= max, right size, no starvation). "
-              "Oracle: an Open that succeeds on a regular entry reads exactly the entry's bytes (also after Done); Done and every Open return within the watchdog once the stream ended, failed or was cancelled; a fault-free stream yields no error. non-trivial = an Open issued while something was parked; every cuts/destfaults/hooked/stress case"),
+              "Oracle: an Open that succeeds on a regular entry reads exactly the entry's bytes (also after Done); Done and every Open return within the watchdog once the stream ended, failed or was cancelled; a fault-free stream yields no error. neighbours leg: 0..3 other ReaderFS parked at a drawn block inside a 154 KiB..5 MiB entry (within or beyond the first 150 KiB) while a further ReaderFS gets a complete one-entry archive (0 B..4 MiB): Done closes, the entry reads back complete. non-trivial = an Open issued while something was parked; every cuts/destfaults/hooked/stress case"),
         assumptions=["'eventually returns' is observed as 'returned within the watchdog'", "schedules are owned at the archive reader, at destination calls and at three verifPoint markers inside tar; everything else is free-running"],
         legs=[
             dict(name="stream", run="^TestStream$", quick=250, thorough=3000, shards=6, quick_shards=4),
